@@ -563,7 +563,9 @@ MCmpMag(op, l, kl, r, kr, conv) ==
 Neg3(p) == IF p = "T" THEN "F" ELSE IF p = "F" THEN "T" ELSE p
 BareEq == "not_of_eq" \in OpenDevs
 ResType(op) == IF op = "==" /\ BareEq THEN "np" ELSE "BT"
-BoolCmpType(op) == IF op = "==" THEN (IF BareEq THEN "py" ELSE "BT") ELSE "pyne"
+\* (since 48b85fe the result of != is wrapped like that of ==)
+BoolCmpType(op) == IF op = "==" THEN (IF BareEq THEN "py" ELSE "BT")
+                   ELSE IF "not_of_bool_ne" \in OpenDevs THEN "pyne" ELSE "BT"
 \* self.convert(unit): only when both sides carry a unit and they differ; raises across dimensions
 NeedsConv(from, to) == from # "" /\ to # "" /\ from # to
 ConvFails(from, to) == NeedsConv(from, to) /\ UDim(from) # UDim(to)
@@ -600,7 +602,7 @@ MCmpNum(op, x, y) ==
                ELSE MR(MCmpMag(op, AMag(nod), nod.k, mag, lk, conv), ResType(op), {})
 
 MCmp(op, x, y) ==
-  IF x.r = "E" THEN x ELSE IF y.r = "E" THEN y
+  IF x.r = "E" \/ y.r = "E" THEN MErr(x.dev \cup y.dev)
   ELSE IF x.num /\ y.num THEN
        LET m == MCmpNum(op, AT(x.tok), AT(y.tok)) IN [m EXCEPT !.dev = m.dev \cup x.dev \cup y.dev]
   ELSE IF x.num THEN (IF AT(x.tok).kind = "lit" THEN MR("U", ResType(op), x.dev \cup y.dev)   \* bool('300')
@@ -612,7 +614,7 @@ MCmp(op, x, y) ==
   ELSE MR(IF (x.r = y.r) = (op = "==") THEN "T" ELSE "F", BoolCmpType(op), x.dev \cup y.dev)
 \* CustomAnd / CustomOr wrap bare bools into BooleanType; `self.value and other.value`
 MLogic(op, x, y) ==
-  IF x.r = "E" THEN x ELSE IF y.r = "E" THEN y
+  IF x.r = "E" \/ y.r = "E" THEN MErr(x.dev \cup y.dev)
   ELSE IF x.num THEN MErr(x.dev \cup y.dev)                 \* FloatType has no logical_and
   ELSE IF y.num THEN MR("U", "BT", x.dev \cup y.dev)
   ELSE IF x.r = "U" \/ y.r = "U" THEN MR("U", "BT", x.dev \cup y.dev)
